@@ -23,12 +23,12 @@ fn main() {
     let mut exhaustive = true;
     let (domain, bound): (String, String);
     if let Some(r) = get("--replay") {
-        // replay: the input is a JSON value; strings are re-checked with every string-level property
+        // replay: re-run the suite on the real code, recording only violations on exactly the given input
         let v: serde_json::Value = serde_json::from_str(&r).unwrap_or(json!(r));
-        let s = v.get("string").and_then(|x| x.as_str()).map(str::to_owned).or_else(|| v.as_str().map(str::to_owned));
-        match s {
-            Some(s) => checks::check_string(&ctx, &s, "C01 C02 C03 C04 C05 C06 C07 C08 C10 C13 C19"),
-            None => run(&name, &props, thorough, seed, &ctx),
+        let _ = REPLAY_INPUT.set(v.clone());
+        if let Err(m) = guarded(|| run(&name, &props, thorough, seed, &ctx)) {
+            ctx.nviol.fetch_add(1, std::sync::atomic::Ordering::Relaxed);
+            ctx.violations.lock().unwrap().push(json!({"unit": "C06.panic", "clause": "no operation of the library panics", "input": v, "observed": m, "required": "a value or an error"}));
         }
         domain = "replay".into();
         bound = r;
